@@ -150,7 +150,7 @@ CHECKS.update({
 NA = {
     "C01": "whole-program soundness needs the parser and the evaluator on symbolic programs; the local kernels (parameter binding in from_template, call typing) sit inside functions whose error paths drop half-built scopes/values, whose recursive drop glue CBMC does not finish (DESIGN.md 9.2); panics of natives found on the way are reported and fixed under the property whose harness reached them",
     "C04": "bind_in_assignment / common_type were encoded (kani/crate/xtype.rs: reference relation over a symbolic universe of depth-2 types) but no harness finished within 2400 s even with the HashMap model and per-function recursion bounds: every arm of the recursive type functions is explored at every level (DESIGN.md 9.2); two defects found while writing the oracle were repaired (7baede9, a60a111)",
-    "C05": "resolve_overload lives in CompilationScope (scope tables, XExpr construction, dynamic factories): every harness through it explores the recursive clone/drop glue of XExpr/XType and did not finish; no slice isolates the ranking without rewriting it (DESIGN.md 9.2)",
+    "C05": "resolve_overload lives in CompilationScope (scope tables, XExpr construction, dynamic factories): harnesses through it do not finish; its ranking part was extracted as a verbatim slice (kani/unit/slices/overload_rank.rs, harnesses c05_*_x) but the slice's own Vec pushes with symbolic counts exhaust the SAT encoder (20 GB); a documented-order defect found while writing the oracle was repaired (4c73af4)",
     "C10": "bounded work of whole builtins/pipelines needs the natives that iterate sequences/generators behind Rc<dyn XNativeValue>, which CBMC does not finish (DESIGN.md 9.2); the search budget itself is decided under C08",
     "C17": "XMapping/XSet natives receive mappings as Rc<dyn XNativeValue> values and iterate bucket maps; no harness through them finished within the thorough cap (DESIGN.md 9.2)",
     "C02": "needs the pest parser and whole-program evaluation against a reference evaluator; neither can be encoded for CBMC/SMT here (DESIGN.md 4 C02)",
